@@ -87,8 +87,8 @@ func Load(dir string, tests bool) (*Program, error) {
 			if overlay, err = renameOverlay(pre, byDecl); err != nil {
 				return nil, fmt.Errorf("load: rename overlay: %w", err)
 			}
-			renames = rs
 		}
+		renames = rs
 	}
 	pkgs, err := loadPkgs(dir, tests, overlay)
 	if err != nil {
